@@ -155,8 +155,39 @@ def checkAt (tenv : Option Env) (env : Env) (table : List (String × Expr)) (lab
 def check (env : Env) (table : List (String × Expr)) (labels : List String) (m : Matrix) : M Verdict :=
   checkAt Option.none env table labels m
 
-/-- order of the levels of one plain categorical variable in consecutive single-piece labels:
-sorted for unordered data, the declared order for an ordered categorical -/
+/-- the data column whose levels a single-piece label `name[level]` enumerates: the variable
+itself, or the first argument `v` of a coding call `C(v …)`, `T(v …)`, `S(v …)` that does not pass
+an explicit `levels=` (which fixes another order) -/
+def levelSource (name : String) : Option String :=
+  let cs := name.toList
+  match cs with
+  | c :: '(' :: rest =>
+    if (c == 'C' || c == 'T' || c == 'S') && cs.getLast? == some ')' then
+      let arg := rest.takeWhile (fun ch => ch != ',' && ch != ')')
+      let tail := String.ofList (rest.drop arg.length)
+      let v := String.ofList arg
+      if (tail.splitOn "levels").length > 1 || v.toList.any (fun ch => ch == '(' || ch == ' ') then none
+      else some v
+    else none
+  | _ => if cs.any (fun ch => ch == '(') then none else some name
+
+/-- `l1` comes before `l2` in the order of the levels of column `c`: the declared order of an
+ordered categorical, numeric order for numeric data, lexicographic order for strings -/
+def levelBefore (c : Column) (l1 l2 : String) : Bool :=
+  match c.kind with
+  | .categorical true cats =>
+    (match indexOf? l1 cats, indexOf? l2 cats with
+     | some i, some j => decide (i < j)
+     | _, _ => false)
+  | .numeric _ =>
+    (match l1.toInt?, l2.toInt? with
+     | some a, some b => decide (a < b)
+     | _, _ => true)                     -- non-integer numeric levels: not judged
+  | _ => decide (l1 < l2)
+
+/-- order of the levels of one categorical variable in consecutive single-piece labels (`v[l]`,
+`C(v)[l]`, `T(v, …)[l]`, `S(v, …)[l]`): sorted for unordered data — numerically for numbers —,
+the declared order for an ordered categorical -/
 def levelOrderOk (env : Env) (labels : List String) : Bool :=
   let parsed := labels.map (fun l =>
     if (splitTop ':' l).length == 1 && (splitTop '|' l).length == 1 then
@@ -169,16 +200,21 @@ def levelOrderOk (env : Env) (labels : List String) : Bool :=
     match p with
     | (some (n1, l1), some (n2, l2)) =>
       if n1 != n2 then true else
-      match env.frame.col? n1 with
-      | some c =>
-        match c.kind with
-        | .categorical true cats =>
-          (match indexOf? l1 cats, indexOf? l2 cats with
-           | some i, some j => decide (i < j)
-           | _, _ => false)
-        | .numeric _ => true
-        | _ => decide (l1 < l2)
+      match levelSource n1 with
       | none => true
+      | some v =>
+        match env.frame.col? v with
+        | some c =>
+          -- only labels that name values of the column are levels (`S(f)[mean]` is not one)
+          let occurs := fun (l : String) => c.cells.any (fun cell => match cell with
+            | .str t => t == l
+            | .num q => toString q == l
+            | .na => false)
+          if !(occurs l1 && occurs l2) then true else
+          (match c.kind with
+           | .numeric _ => if v == n1 then true else levelBefore c l1 l2   -- plain numeric: no levels
+           | _ => levelBefore c l1 l2)
+        | none => true
     | _ => true)
 
 end FormulaeModel.Spec.C04
